@@ -235,10 +235,10 @@ def main(prop: str, tier: str) -> int:
                      MaxOps='2', Modes='{"recursive", "single"}', IncMenu='{{}, {"b", "starstar"}, {"a", "c"}}')]
     else:
         files = '{"a", "b", "c", "d"}'
-        menu = '{{}, {"b"}, {"c"}, {"d"}, {"a"}, {"b", "c"}, {"star"}, {"starstar"}, {"nomatch"}, {"star", "d"}}'
+        menu = '{{}, {"b"}, {"d"}, {"a"}, {"b", "c"}, {"starstar"}, {"nomatch"}}'
         runs = [dict(Spellings='{"abs", "bare"}', Eols='{"crlf"}', MaxOps='1', Modes='{"recursive"}', IncMenu=menu),
-                dict(Spellings='{"abs", "dot", "bare", "dotdot", "pathlib"}', Eols='{"lf", "crlf", "mixed", "nofinal"}',
-                     MaxOps='3', Modes='{"recursive", "single"}', IncMenu='{{}, {"b", "starstar"}, {"a", "c"}, {"d"}}')]
+                dict(Spellings='{"abs", "bare", "dotdot"}', Eols='{"crlf", "nofinal"}',
+                     MaxOps='2', Modes='{"recursive", "single"}', IncMenu='{{}, {"b", "starstar"}, {"a", "c"}, {"d"}}')]
     states = transitions = n = 0
     samples = []
     info = []
